@@ -80,4 +80,11 @@ theorem valid_run_writes_every_report (o : Cli.Options) (acctName holderOf : Nat
     (Cli.run o acctName holderOf cfgAssets sheets).files.map (·.1) =
       (Cli.ordered gens).map (fun g => Cli.fileName o.pfx (Cli.methodName (Cli.scheduleOf o defMethod)) (Cli.genBase g)) :=
   Cli.run_complete_on_computed o acctName holderOf cfgAssets sheets iso period defMethod methods gens defLang sched cs v hout ht hjp
+/-- **what "valid input" means for one asset**: `compute` succeeds exactly when lot matching succeeds (C02: every disposal covered) and the
+    balance replay is not rejected (C08: no overdrawn account, or `-n`) — no other failure exists in the computation model -/
+theorem input_computes_iff (asset : String) (acctName : Nat → String) (period : Int) (allowNeg : Bool) (fromD toD : Option Int)
+    (sched : List (Int × Method)) (ins : List InTx) (outs : List OutTx) (intras : List IntraTx) :
+    (∃ cd, compute asset acctName period allowNeg fromD toD sched ins outs intras = .ok cd) ↔
+      (∃ fs, computeFractions sched ins outs intras = .ok fs) ∧ (∃ bs, balances allowNeg toD ins outs intras = .ok bs) :=
+  compute_ok_iff asset acctName period allowNeg fromD toD sched ins outs intras
 end Rp2.C16
